@@ -1,16 +1,27 @@
 #!/usr/bin/env python3
 """Translator for C16: regenerates lean/ScyllaVerif/Generated/DeriveC16.lean from the derive-macro SOURCES in /repo.
 
-Extracted, on every check run, from scylla-macros/src/{serialize,deserialize}/{value,row}.rs and
-scylla-cql-core/src/_macro_internal.rs:
+A SURFACE extraction (regex + brace matching, no Rust parser), re-run on every `./check C16`, from
+scylla-macros/src/{serialize,deserialize}/{value,row}.rs and scylla-cql-core/src/_macro_internal.rs:
   * the attribute names each derive accepts (darling structs: struct-level and field-level),
-  * the `is_required` rule of each derive, mapped to a small enum (unknown expression => extraction error),
-  * per code generator, the error variants it can emit and the panicking macros it plants, IN SOURCE ORDER
-    (the fingerprint of the shape the interpreter Model/Derive.lean was transcribed from).
-`Props/C16.lean` proves the interpreter against these definitions (which attributes exist for which derive, which
-error kinds each interpreter can return, which generators may panic), so an edit of the macros that adds, drops or
-reorders an error emission / attribute breaks a proof obligation.  Regex-based, fails closed (ExtractError).
+  * `Field::is_required` of each derive, translated token by token into a Lean Bool function,
+  * per code generator: the error variants / panicking macros it plants (`*Emits`); the same emissions each with the
+    enclosing conditions that mention an attribute flag (`*Guarded`); all such conditions of the block (`*Guards`) -
+    all three in source order.
+What `Props/C16.lean` proves against it:
+  * set-level: every error an interpreter can return is a variant of its generator's `*Emits` and vice versa, the
+    attribute matrix, `Field.required` = the translated `is_required` function (`errors_in_source`,
+    `source_emissions_modelled`, `source_attr*`, `source_required_rules`);
+  * a PIN: `source_shape_pinned` states the `*Guarded` / `*Guards` lists literally (order and multiplicity included),
+    so adding, dropping, renaming, REORDERING an emission or changing / inverting / removing a flag condition breaks that
+    obligation and forces the interpreter to be re-read against the source;
+  * per flag-guarded emission, the model-side counterpart (`guards_govern_model`): the interpreter returns that error
+    only under the same flag.
+What it does NOT see: conditions that mention no attribute flag, the data flow between the emissions, anything inside
+`<T as SerializeValue>` etc.  That the interpreter computes what the generated code computes is established by the
+differential run, not by this file.  Fails closed (ExtractError) when a pattern is not found.
 """
+
 import os
 import re
 import sys
@@ -83,20 +94,97 @@ def emissions(rel, header_re):
     return out
 
 
-REQUIRED_RULES = {
-    "!self.attrs.skip&&!self.attrs.ignore_missing": "notSkipNotAllowMissing",
-    "!self.skip&&!self.default_when_missing": "notSkipNotAllowMissing",
-    "!self.skip": "notSkip",
+FLAG_WORDS = [
+    "forbid_excess_udt_fields", "skip_name_checks", "default_when_null", "default_when_missing", "ignore_missing",
+    "field_can_be_ignored", "is_required", "flatten", "ENFORCE_NAME", "enforce_name", ".skip", "is_empty",
+]
+
+
+def _norm(t):
+    return re.sub(r"\s+", " ", t).strip()
+
+
+def guarded(rel, header_re):
+    """(emissions, guards): every error variant / panicking macro of the block in source order, each with the stack
+    of the enclosing conditions that mention an attribute flag (`if:<cond>`, `else-of:<cond>`, `then:<expr>`,
+    `arm:<pattern guard>`), and the list of all such conditions of the block in source order.  Conditions are the
+    macro's generation-time `if`s (which flag selects which generated code) and the flag-dependent run-time `if`s
+    inside `quote!`; conditions that mention no attribute flag are dropped."""
+    src = strip_comments(read(rel))
+    body = block_after(src, header_re, rel)
+    pat = re.compile(r"\b(%s)::(\w+)|(%s)" % ("|".join(KIND_ENUMS), PANIC_RE))
+    ems = {m.start(): ("PANIC" if m.group(3) else m.group(2)) for m in pat.finditer(body)}
+    stack = []        # guards (or None) of the open `{`
+    last_closed = {}  # depth -> guard text of the block closed last at that depth
+    seg_start = 0     # start of the text that may be the header of the next `{`
+    out_em, out_guards = [], []
+
+    def flagged(t):
+        return any(w in t for w in FLAG_WORDS)
+
+    i = 0
+    n = len(body)
+    while i < n:
+        ch = body[i]
+        if i in ems:
+            gs = [g for g in stack if g]
+            out_em.append("|".join([ems[i]] + gs))
+        if ch == "{":
+            h = _norm(body[seg_start:i])
+            depth = len(stack)
+            g = None
+            m = re.search(r"(?:^|[^\w])(else\s+)?if\s+(.*)$", h)
+            if re.fullmatch(r"else", h) or h.endswith(" else") and not m:
+                prev = last_closed.get(depth)
+                g = ("else-of:" + prev.split(":", 1)[1]) if prev else None
+            elif m and flagged(m.group(2)):
+                g = "if:" + m.group(2).strip()
+            elif ".then(" in h and flagged(h):
+                g = "then:" + _norm(h[:h.rindex(".then(")].split("=")[-1])
+            elif "=>" in h and flagged(h.split("=>")[0]):
+                g = "arm:" + _norm(h.split("=>")[0])
+            if g:
+                out_guards.append(g)
+            stack.append(g)
+            seg_start = i + 1
+        elif ch == "}":
+            if stack:
+                g = stack.pop()
+                last_closed[len(stack)] = g
+            seg_start = i + 1
+        elif ch == ";":
+            seg_start = i + 1
+        i += 1
+    return out_em, out_guards
+
+
+REQ_TOKENS = {
+    "self.attrs.skip": "skip", "self.skip": "skip",
+    "self.attrs.ignore_missing": "allowMissing", "self.default_when_missing": "allowMissing",
 }
 
 
-def required_rule(rel):
+def required_expr(rel):
+    """`fn is_required(&self) -> bool { <expr> }` translated token by token into a Lean Bool expression over
+    `skip` and `allowMissing` (only `!`, `&&`, `||`, parentheses and the attribute flags are accepted)."""
     src = strip_comments(read(rel))
-    body = block_after(src, r"fn\s+is_required\s*\(\s*&self\s*\)\s*->\s*bool", rel)
-    key = re.sub(r"\s+", "", body)
-    if key not in REQUIRED_RULES:
-        raise ExtractError("%s: unknown is_required rule `%s`" % (rel, body.strip()))
-    return REQUIRED_RULES[key]
+    body = re.sub(r"\s+", "", block_after(src, r"fn\s+is_required\s*\(\s*&self\s*\)\s*->\s*bool", rel))
+    out, i = [], 0
+    while i < len(body):
+        for tok, lean in sorted(REQ_TOKENS.items(), key=lambda kv: -len(kv[0])):
+            if body.startswith(tok, i):
+                out.append(lean)
+                i += len(tok)
+                break
+        else:
+            for op in ("&&", "||", "!", "(", ")"):
+                if body.startswith(op, i):
+                    out.append(op)
+                    i += len(op)
+                    break
+            else:
+                raise ExtractError("%s: cannot translate is_required expression `%s`" % (rel, body))
+    return " ".join(out).replace("! ", "!")
 
 
 def strs(xs):
@@ -118,10 +206,6 @@ def render():
     d("dvFieldAttrs", "List String", strs(darling_attrs(DV, "Field")), "`#[derive(DeserializeValue)]` field attributes")
     d("drStructAttrs", "List String", strs(darling_attrs(DR, "StructAttrs")), "`#[derive(DeserializeRow)]` struct attributes (%s)" % DR)
     d("drFieldAttrs", "List String", strs(darling_attrs(DR, "Field")), "`#[derive(DeserializeRow)]` field attributes")
-    # is_required
-    d("svRequiredRule", "String", '"%s"' % required_rule(SV), "`Field::is_required` of serialize/value.rs")
-    d("dvRequiredRule", "String", '"%s"' % required_rule(DV), "`Field::is_required` of deserialize/value.rs")
-    d("drRequiredRule", "String", '"%s"' % required_rule(DR), "`Field::is_required` of deserialize/row.rs")
     # emissions per generator
     gens = [
         ("svByNameEmits", SV, r"impl\s+Generator\s+for\s+FieldSortingGenerator\b", "FieldSortingGenerator"),
@@ -144,11 +228,23 @@ def render():
     for name, rel, hdr, what in gens:
         d(name, "List String", strs(emissions(rel, hdr)),
           "error variants / panicking macros planted by `%s` (%s), in source order" % (what, rel))
+    for name, rel, hdr, what in gens:
+        ems, guards = guarded(rel, hdr)
+        d(name.replace("Emits", "Guarded"), "List String", strs(ems),
+          "the same emissions, each with the enclosing conditions that mention an attribute flag")
+        d(name.replace("Emits", "Guards"), "List String", strs(guards),
+          "all conditions of `%s` that mention an attribute flag, in source order" % what)
+    for nm, rel in (("svRequired", SV), ("dvRequired", DV), ("drRequired", DR)):
+        defs.append("/-- `Field::is_required` of %s, translated token by token -/\ndef %s (skip allowMissing : Bool) : Bool := %s\n"
+                    % (rel, nm, required_expr(rel)))
     head = [
         "/-",
         "GENERATED by tools/extract_derive_c16.py from the derive-macro sources in /repo - DO NOT EDIT.",
-        "Rewritten on every `./check C16`; `Props/C16.lean` proves the interpreter `Model/Derive.lean` against these",
-        "definitions, so a macro edit that adds / drops / reorders an attribute or an error emission breaks a proof obligation.",
+        "A surface extraction (attribute names, is_required, error emissions and the attribute-flag conditions around them,",
+        "in source order), rewritten on every `./check C16`.  `Props/C16.lean` proves set-level facts against `*Emits`, pins",
+        "`*Guarded` / `*Guards` literally (`source_shape_pinned`: any added / dropped / renamed / reordered emission or changed",
+        "flag condition breaks it) and proves the model-side counterpart of every flag-guarded emission.  It does not see",
+        "data flow or flag-free conditions; the behavioural tie is the differential run.",
         "-/",
         "namespace ScyllaVerif.Generated.DeriveC16",
         "",
